@@ -235,8 +235,8 @@ def run_all(ctx, scheds, expects=None):
                     results.append(await run_schedule(fe, fx, srv, f"ov{i:05d}", s, expects[i] if expects else None))
                     # a run that waits out its time-outs means the implementation left the model's path: a handful of those
                     # decide the verdict, the rest would only cost minutes
-                    slow += (_t.time() - t0) > 2.5
-                    if slow >= 8:
+                    slow = slow + 1 if (_t.time() - t0) > 2.5 else 0        # consecutive slow runs only
+                    if slow >= 6:
                         break
         asyncio.run(main())
     finally:
